@@ -4,7 +4,7 @@ CONSTANTS Widths = {} MaxH = 1 MaxOwn = 1 LimbDom = {0} IdWidths = {} StreamWidt
   Transports = {"stream", "dgram"} ConnWidths = {2} IdCand = {} IdLimit = 0
   MaxReq = 2 MaxPlain = 0 MaxStray = 1
   BActs = {"none", "reply"} BHrets <- CHretsFail SyncMax = 0
-  MaxBReq = 0 MaxBPlain = 0 CRets <- CRetsZero MaxChain = 1
+  MaxBReq = 0 MaxBPlain = 0 CRets <- CRetsBoth MaxChain = 1
 VIEW Skel
 ACTION_CONSTRAINT Emit
 CHECK_DEADLOCK FALSE
